@@ -84,6 +84,14 @@ impl GreenToken {
     }
 }
 
+#[cfg(cstree_verif)]
+impl GreenToken {
+    /// Address of the shared allocation (sharing through the node cache is not otherwise observable).
+    pub fn verif_addr(&self) -> usize {
+        Self::remove_tag(self.ptr).as_ptr() as usize
+    }
+}
+
 impl fmt::Debug for GreenToken {
     fn fmt(&self, f: &mut fmt::Formatter<'_>) -> fmt::Result {
         let data = self.data();
